@@ -534,6 +534,12 @@ def replay(ctx, rep):
                    L={eval(a): set(eval(x) for x in l)
                       for a, l in c['K']['labels'].items()},
                    S0=[eval(x) for x in c['K']['S0']])
-        K.get_substructure(set(eval(x) for x in c['V']))
+        try:
+            K.get_substructure(set(eval(x) for x in c['V']))
+        except Exception:
+            pass        # judged by the monitor
     elif 'R' in c:
-        Kripke(eval(c['S']), eval(c['S0']), eval(c['R']), eval(c['L']))
+        try:
+            Kripke(eval(c['S']), eval(c['S0']), eval(c['R']), eval(c['L']))
+        except Exception:
+            pass
